@@ -446,6 +446,12 @@ func (r *EngineRunner) Exec(f []string) (res string) {
 		if r.pathStyle == 1 || (r.pathStyle == 2 && r.opensDone%2 == 0) {
 			dp += string(os.PathSeparator) // the same directory, spelled differently
 		}
+		if r.pathStyle == 3 {
+			dp = filepath.Dir(dp) + string(os.PathSeparator) + "." + string(os.PathSeparator) + filepath.Base(dp)
+		}
+		if r.pathStyle == 4 {
+			dp = filepath.Dir(dp) + string(os.PathSeparator) + string(os.PathSeparator) + filepath.Base(dp)
+		}
 		r.opensDone++
 		r.opts = parseOpts(f[2:], dp)
 		r.so.reset()
